@@ -31,6 +31,9 @@ enum Op {
     DropOwner,
     /// the owner is consumed by `Instrumented::from_parts((), owner).emit()`
     EmitOwner,
+    /// the owner is consumed by `Instrumented::from_parts((), owner).discard_metrics()` (the
+    /// metrics are dropped, which for an append-on-drop owner is its drop point)
+    DiscardOwner,
     /// a mutation made inside `Instrumented::instrument(owner, |m| ..)`, owner taken back with `into_parts`
     InstrumentMutate,
 }
@@ -90,6 +93,7 @@ impl Model {
             }
             v.push(Op::Mutate);
             v.push(Op::DropOwner);
+            v.push(Op::DiscardOwner);
             v.push(Op::EmitOwner);
             v.push(Op::InstrumentMutate);
             v.push(Op::MkHandle); // converts the owner into a handle
@@ -124,7 +128,7 @@ impl Model {
                 self.force_dropped = true;
             }
             Op::Mutate | Op::InstrumentMutate => self.mutations += 1,
-            Op::DropOwner | Op::EmitOwner => self.owner_alive = false,
+            Op::DropOwner | Op::EmitOwner | Op::DiscardOwner => self.owner_alive = false,
         }
         self.settle();
     }
@@ -159,6 +163,7 @@ impl World {
             Op::Mutate => self.owner.as_mut().unwrap().a += 1,
             Op::DropOwner => drop_it(self.owner.take(), self.unwinding),
             Op::EmitOwner => metrique::instrument::Instrumented::from_parts((), self.owner.take().unwrap()).emit(),
+            Op::DiscardOwner => metrique::instrument::Instrumented::from_parts((), self.owner.take().unwrap()).discard_metrics(),
             Op::InstrumentMutate => {
                 let o = self.owner.take().unwrap();
                 let ((), o) = metrique::instrument::Instrumented::instrument(o, |m| m.a += 1).into_parts();
